@@ -357,6 +357,24 @@ func Features() []Feature {
 			}})
 		}
 	}
+	// variants whose own message type carries a JSON-shaping annotation (an annotation on a message plus one on the
+	// message nested in it)
+	for _, fl := range []bool{false, true} {
+		fl, sh := fl, next()
+		id := "oneof_nested"
+		if fl {
+			id = "oneof_flatten"
+		}
+		add(Feature{ID: id + "/message/variants-with-codecs", Ann: id, Kind: "message", Card: "variants-with-codecs", Shape: sh, Build: func(b *B) string {
+			b.Msg("Text", spec.F("body", 1, spec.String), spec.F(b.N.Field(sh, 1), 2, spec.String).Opt().With(func(a *spec.Ann) { a.Nullable = spec.B(true) }))
+			b.Msg("Image", spec.F("url", 1, spec.String), spec.F("size_bytes", 2, spec.Int64).With(func(a *spec.Ann) { a.Int64Enc = 2 }))
+			t := spec.FM("text_part", 2, b.FQ("Text")).In(1)
+			im := spec.FM("image", 3, b.FQ("Image")).In(1)
+			m := b.Msg("Root", spec.F("id", 1, spec.String), t, im, spec.F("count", 4, spec.Int32))
+			m.Oneofs = []*spec.Oneof{{Name: "content", HasConfig: true, Discriminator: "type", Flatten: fl}}
+			return "Root"
+		}})
+	}
 	add(Feature{ID: "oneof_nested/scalar/default-values", Ann: "oneof_nested", Kind: "scalar", Card: "default-values", Shape: "word", Build: func(b *B) string {
 		m := b.Msg("Root", spec.F("id", 1, spec.String), spec.F("text_val", 2, spec.String).In(1), spec.F("num_val", 3, spec.Int32).In(1), spec.F("big_val", 4, spec.Int64).In(1))
 		m.Oneofs = []*spec.Oneof{{Name: "value", HasConfig: true, Discriminator: "kind"}}
